@@ -1,7 +1,7 @@
 """Histories for the server model (theories/Server.v): abstract stimuli, their execution on a deterministic driver
 (rt.py) and their translation into Coq terms; translation of what the implementation emitted into the model's
 output vocabulary.  Used by the stateful property suites (C03-C07, C11, C12, C14-C16, C18)."""
-import json, re
+import json, re, urllib.parse
 import rt, hx, vlib
 from vlib import qN, qZ, qbool, qlist, qopt, qpair, qnat
 
@@ -71,10 +71,15 @@ def cpkt_term(p):
 def body_wire(b, rng=None):
     """-> (bytes, declared content length or None for the actual length)"""
     if b[0] == 'pk':
-        return '\x1e'.join(cpkt_wire(p, rng) for p in b[1]).encode(), None
+        wire = '\x1e'.join(cpkt_wire(p, rng) for p in b[1])
+        if rng and rng.random() < 0.15 and '\\' not in wire:
+            # the form-encoded JSONP body of a polling client: d=<percent-encoded payload> (the separator travels as %1E); same packets
+            return ('d=' + urllib.parse.quote(wire)).encode(), None
+        return wire.encode(), None
     if b[0] == 'undec':
         v = b[1] if len(b) > 1 else 0
-        return [b'x\x1e4a', '\x1e'.join(['4a'] * 17).encode(), b'4a\x1e\x1e4b', b'bQ', b'\x1e'][v % 5], None
+        return [b'x\x1e4a', '\x1e'.join(['4a'] * 17).encode(), b'4a\x1e\x1e4b', b'bQ', b'\x1e',
+                ('d=' + urllib.parse.quote('\x1e'.join(['4a'] * 17))).encode()][v % 6], None     # 17 packets, plain and form-encoded: one more than a body may carry
     return b'4' + b'z' * MAXBUF, None          # too long: declared = actual = limit + 1
 
 
@@ -317,6 +322,8 @@ class Runner:
                 # header values are case-insensitive: every spelling is the same stimulus
                 hdrs = {'Upgrade': self.rng.choice(['websocket', 'websocket', 'WebSocket', 'WEBSOCKET']) if self.rng else 'websocket',
                         'Connection': self.rng.choice(['Upgrade', 'upgrade', 'keep-alive, Upgrade']) if self.rng else 'Upgrade'}
+                if len(op) > 3:                           # a fixed history names the spelling
+                    hdrs = {'Upgrade': op[3][0], 'Connection': op[3][1]}
                 rid, cid = d.ws_open(dict(method='GET', query='transport=%s&sid=%s' % (tr, self.real_sid(op[1])), headers=hdrs))
                 self.cids[cid] = c
                 self.conn_of[c] = cid
@@ -589,7 +596,7 @@ def gen_history(rng, cfg, length=25, weights=None, max_sessions=4, allow_disc_ha
             if r < 0.8:
                 body = ('pk', [cpkt() for _ in range(rng.choice([1, 1, 1, 1, 2, 2, 3, 3, 15, 16]))])      # 16 = the largest body a server accepts
             elif r < 0.92:
-                body = ('undec', rng.randrange(5))
+                body = ('undec', rng.randrange(6))
             else:
                 body = ('toolong',)
             ops.append(('post', pick_session(), body))
